@@ -64,6 +64,25 @@ def c14_one(item):
             res['runs'] += 1
             if impl.render_contexts(fn, keys) != ctx0:
                 res['viol'].append(('detector-purity', "running the detectors changed the per-block contexts another detector reads"))
+        # what was analysed earlier includes OTHER FUNCTIONS OF THE SAME CONTRACT (group configurations build several from one
+        # parsed contract): building them neither changes what the whole-contract function answers nor depends on their order
+        import engine
+        dps = [p for p in engine.dispatch_paths(src, rng=random.Random(f"c14f/{name}")) if list(p) != ["B0"]][:3]
+        if dps:
+            teal, cap = impl.parse(src)
+            fn = impl.construct_function_traced(teal, ["B0"])
+            keys = impl.block_keys(fn)
+            first = impl.render_contexts(fn, keys)
+            for pth in dps:
+                try:
+                    impl.construct_function_traced(teal, list(pth))
+                except impl.AnalysisFailed:
+                    pass
+            res['runs'] += 1
+            if impl.render_contexts(fn, keys) != first:
+                res['viol'].append(('history', f"the contexts of the whole-contract function changed after the functions for the dispatch paths {[list(p) for p in dps]} of the same contract were built"))
+            if first != ctx0:
+                res['viol'].append(('history', "re-analysing the same source in the same process gives different contexts"))
     except impl.AnalysisFailed:
         pass
     except BaseException as e:  # noqa
@@ -289,7 +308,10 @@ def kindspell_programs():
                     base = prog(f"int {name}")
                     variants = [('number', prog(f"int {val}")), ('hex', prog(f"int {hex(val)}")), ('octal', prog(f"int 0{oct(val)[2:]}" if val else "int 0")),
                                 ('pushint', prog(f"pushint {val}")), ('intc', prog("intc 1", f"intcblock 77 {val}\n")),
-                                ('intc_k', prog("intc_0", f"intcblock {val} 1000\n"))]
+                                ('intc_k', prog("intc_0", f"intcblock {val} 1000\n")),
+                                # the constant block anywhere in the entry block, after stack-neutral padding
+                                ('intc-after-padding', prog("intc 1", f"int 7\npop\nintcblock 77 {val}\n")),
+                                ('intc_k-after-bytecblock', prog("intc_0", f"bytecblock 0x01\nint 7\npop\nintcblock {val}\n"))]
                     out.append((f"kindspell/{field}/{name}/{'const-first' if const_first else 'field-first'}/{op}/{use}", base, variants))
     return out
 
